@@ -213,7 +213,7 @@ def programs(draw, discrete=False, max_sites=14, combinators=("call", "vmap", "s
         name = f"L{i}"
         use_kw = kwargs and i == 0 and draw(st.integers(0, 2)) == 0
         fn, sites = _gen_fn(draw, cfg, {}, {}, False, draw(st.integers(1, 2 if discrete else 3)), ["draw", "draw", "vdist"] if "vdist" in combinators else ["draw"],
-                            kw=("s",) if use_kw else ())
+                            kw=("sk",) if use_kw else ())
         fns[name], plain[name] = fn, {"np": fn["np"], "kw": fn["kw"], "sites": sites}
         order.append(name)
     if "cond" in combinators:
